@@ -187,6 +187,7 @@ func runC06(c *Ctx) {
 	checkCellWriters(c, p, "R06.0b", "R06.0c")
 	checkFirstSteps(c, p, "R06.0e")
 	checkLR1Steps(c, p, "R06.0e")
+	checkItemSetOps(c, p, "R06.0e")
 	for _, d := range gmParserDirs {
 		checkLRDriver(c, p, "R06.0d", gmRoot+"/"+d, "*Parser.Parse", false)
 		checkNewError(c, p, "R06.1", d)
